@@ -75,6 +75,7 @@ type verifC19 struct {
 	adds    int
 	quirk   bool // an assertion with a new-line-led signature block was delivered
 	dots    []string // identities with "." or ".." in the primary key that Add accepted
+	curDot  bool     // the lookup being judged itself uses "." or ".." as a key value
 }
 
 const verifC19DotClass = "fs-store-misplaces-dot-or-dotdot-primary-key"
@@ -94,7 +95,7 @@ func verifHasDotPK(pk []string) bool {
 // FindSequence) and even other identities can be affected; that is one
 // specific finding, everything else keeps the generic class.
 func (w *verifC19) fsClass(store, generic string) string {
-	if store == "fs" && len(w.dots) > 0 {
+	if store == "fs" && (len(w.dots) > 0 || w.curDot) {
 		return verifC19DotClass
 	}
 	return generic
@@ -495,6 +496,8 @@ func (w *verifC19) pickIdentity() (t *asserts.AssertionType, pk []string, id str
 func (w *verifC19) checkFind(t *asserts.AssertionType, pk []string, filter map[string]string, why string) {
 	c := w.c
 	id := verifIdentOf(t, pk)
+	w.curDot = verifHasDotPK(pk)
+	defer func() { w.curDot = false }()
 	want := ""
 	wantLabel := "absent"
 	if m := w.model[id]; m != nil {
@@ -554,6 +557,8 @@ func (w *verifC19) opFind() {
 	}
 	if w.model[id] == nil {
 		// absent identity: both must say not found
+		w.curDot = verifHasDotPK(pk)
+		defer func() { w.curDot = false }()
 		h := verifHeadersFor(t, pk)
 		for i, db := range w.st.dbs() {
 			got, err := db.Find(t, h)
@@ -583,6 +588,8 @@ func (w *verifC19) opFindMaxFormat() {
 		}
 	}
 	c.Logf("find-max-format %s max=%d", id, mf)
+	w.curDot = verifHasDotPK(pk)
+	defer func() { w.curDot = false }()
 	h := verifHeadersFor(t, pk)
 	for i, db := range w.st.dbs() {
 		got, err := db.FindMaxFormat(t, h, mf)
@@ -652,6 +659,12 @@ func (w *verifC19) opFindMany() {
 		hs = append(hs, k+"="+v)
 	}
 	sort.Strings(hs)
+	for _, v := range h {
+		if v == "." || v == ".." {
+			w.curDot = true
+		}
+	}
+	defer func() { w.curDot = false }()
 	c.Logf("find-many %s %v -> expect %d", t.Name, hs, len(want))
 	if len(want) > 1 {
 		c.Count("probe:find-many-several-results")
